@@ -517,6 +517,21 @@ func markLocallyShadowedCalls(form *lisp.LVal, binds *lisp.LVal, funBinding bool
 //     entries additionally carry a formals list.
 func aritySkipNodes(exprs []*lisp.LVal) map[*lisp.LVal]bool {
 	skip := make(map[*lisp.LVal]bool)
+	// structural holds the lists that are part of an operator's syntax
+	// (binding lists and pairs, cond clauses, the dotimes header): written
+	// with square brackets they are quoted nodes whose elements are still
+	// evaluated.  Every OTHER quoted list is data, and so is everything
+	// nested in it.
+	structural := make(map[*lisp.LVal]bool)
+	defer func() {
+		Walk(exprs, func(node *lisp.LVal, _ *lisp.LVal, _ int) {
+			if node.Type == lisp.LSExpr && node.IsQuoted() && !structural[node] {
+				for _, c := range node.Cells {
+					skipSExprsBelow(c, skip)
+				}
+			}
+		})
+	}()
 	WalkSExprs(exprs, func(sexpr *lisp.LVal, depth int) {
 		head := HeadSymbol(sexpr)
 		switch head {
@@ -537,7 +552,45 @@ func aritySkipNodes(exprs []*lisp.LVal) map[*lisp.LVal]bool {
 				skip[sexpr.Cells[i]] = true
 			}
 		}
+		switch head {
+		case "dotimes":
+			// (dotimes (var count [result]) body...): the header is no call
+			if ArgCount(sexpr) >= 1 && sexpr.Cells[1].Type == lisp.LSExpr {
+				skip[sexpr.Cells[1]] = true
+				structural[sexpr.Cells[1]] = true
+			}
+		case "handler-bind":
+			// (handler-bind ((condition handler)...) body...): neither the
+			// binding list nor a (condition handler) pair is a call
+			if ArgCount(sexpr) >= 1 && sexpr.Cells[1].Type == lisp.LSExpr {
+				skip[sexpr.Cells[1]] = true
+				structural[sexpr.Cells[1]] = true
+				for _, bind := range sexpr.Cells[1].Cells {
+					if bind != nil && bind.Type == lisp.LSExpr {
+						skip[bind] = true
+						structural[bind] = true
+					}
+				}
+			}
+		case "cond":
+			for _, clause := range sexpr.Cells[1:] {
+				if clause != nil && clause.Type == lisp.LSExpr {
+					structural[clause] = true
+				}
+			}
+		case "quote":
+			// (quote x): x is data all the way down
+			for _, arg := range sexpr.Cells[1:] {
+				skipSExprsBelow(arg, skip)
+			}
+		}
 		if binds, funBinding := bindingList(sexpr); binds != nil {
+			structural[binds] = true
+			for _, bind := range binds.Cells {
+				if bind != nil {
+					structural[bind] = true
+				}
+			}
 			skip[binds] = true
 			for _, bind := range binds.Cells {
 				if bind == nil || bind.Type != lisp.LSExpr {
@@ -552,6 +605,19 @@ func aritySkipNodes(exprs []*lisp.LVal) map[*lisp.LVal]bool {
 		}
 	})
 	return skip
+}
+
+// skipSExprsBelow marks node and every s-expression nested in it.
+func skipSExprsBelow(node *lisp.LVal, skip map[*lisp.LVal]bool) {
+	if node == nil {
+		return
+	}
+	if node.Type == lisp.LSExpr {
+		skip[node] = true
+	}
+	for _, c := range node.Cells {
+		skipSExprsBelow(c, skip)
+	}
 }
 
 // aritySpec defines the min/max argument count for a function.
